@@ -7,15 +7,15 @@ package types
 // VerifTableLens returns the lengths of the base-type tables.
 func VerifTableLens() map[string]int {
 	return map[string]int{
-		"bsize":     len(bsize),
-		"bname":     len(bname),
-		"binteger":  len(binteger),
-		"bsigned":   len(bsigned),
-		"bgotype":   len(bgotype),
-		"binvalid":  len(binvalid),
-		"goinvalid": len(goinvalid),
-		"kname":     len(kname),
-		"fgotype":   len(fgotype),
+		"bsize":      len(bsize),
+		"bname":      len(bname),
+		"binteger":   len(binteger),
+		"bsigned":    len(bsigned),
+		"bgotype":    len(bgotype),
+		"binvalid":   len(binvalid),
+		"goinvalid":  len(goinvalid),
+		"kname":      len(kname),
+		"fgotype":    len(fgotype),
 		"fgoinvalid": len(fgoinvalid),
 	}
 }
